@@ -76,6 +76,22 @@ func atomOf(c *Term) (*Term, bool) {
 			c = c.Args[0]
 			neg = !neg
 			continue
+		case "le":
+			// over the integers  k <= x  is  k-1 < x  and  x <= k  is  x < k+1  (away from the ends of the type)
+			typ := c.S
+			if i := strings.Index(typ, ","); i >= 0 {
+				typ = typ[:i]
+			}
+			if _, isInt := intWidth[typ]; isInt && len(c.Args) == 2 {
+				if k, _, ok := c.Args[0].constInt(); ok && k > -1<<30 && k < 1<<30 && (isSignedName(typ) || k > 0) {
+					c = &Term{Op: "lt", S: c.S, Args: []*Term{cInt(k-1, typ), c.Args[1]}}
+					continue
+				}
+				if k, _, ok := c.Args[1].constInt(); ok && k > -1<<30 && k < 1<<30 {
+					c = &Term{Op: "lt", S: c.S, Args: []*Term{c.Args[0], cInt(k+1, typ)}}
+					continue
+				}
+			}
 		}
 		return c, neg
 	}
